@@ -3,4 +3,5 @@ import McpModel.Base.Proto
 import McpModel.EventStore.Props
 import McpModel.EventStore.Driver
 import McpModel.Paginate.Props
-import McpModel.Paginate.Driver
+import McpModel.Negotiate.Props
+-- (Paginate/Negotiate drivers are roots of their own executables; two `main`s cannot be imported together)
